@@ -1,7 +1,7 @@
 (** LaunchProofs: proofs about the launch planning model (theories/Launch.v), property C08. *)
 From stdpp Require Import gmap.
 From Coq Require Import ZifyN ZifyNat ZifyBool Lia.
-From Drummer.Model Require Import Base DB Launch.
+From Drummer.Model Require Import Base DB Launch LaunchRun.
 Local Open Scope N_scope.
 
 (** * Machine arithmetic *)
@@ -1174,4 +1174,103 @@ Proof.
   rewrite (N.mod_small (h_tick h) two64) by lia.
   rewrite (N.mod_small (tick + two64 - h_tick h) two64) by lia.
   lia.
+Qed.
+
+(** * The executable "allowed outcome" test of LaunchRun.v is the specification *)
+
+Lemma nl_eqb_eq a : forall b, nl_eqb a b = true -> a = b.
+Proof.
+  unfold nl_eqb. induction a as [|x a IH]; intros [|y b] H; cbn in H; try discriminate; [reflexivity|].
+  apply andb_true_iff in H as [H1 H2]. apply N.eqb_eq in H1. subst. f_equal. apply IH. exact H2.
+Qed.
+
+Lemma nodupb_NoDup l : nodupb l = true -> NoDup l.
+Proof.
+  induction l as [|x l IH]; cbn [nodupb]; intros H; [constructor|].
+  apply andb_true_iff in H as [H1 H2]. constructor; [|apply IH; exact H2].
+  apply negb_true_iff in H1. apply memN_not_In. exact H1.
+Qed.
+
+Lemma lookup_hosts_spec fleet addrs : forall hs,
+  lookup_hosts fleet addrs = Some hs -> map h_addr hs = addrs /\ Forall (fun h => In h fleet) hs.
+Proof.
+  induction addrs as [|a addrs IH]; cbn [lookup_hosts]; intros hs H.
+  - injection H as <-. split; [reflexivity | constructor].
+  - destruct (List.find (fun h => h_addr h =? a) fleet) as [h|] eqn:Ef; [|discriminate].
+    destruct (lookup_hosts fleet addrs) as [hs'|]; [|discriminate].
+    injection H as <-. destruct (IH hs' eq_refl) as [H1 H2].
+    apply find_some in Ef as [Hin Ea]. apply N.eqb_eq in Ea.
+    split; [cbn; congruence | constructor; assumption].
+Qed.
+
+Lemma unplaceableb_spec ttl tick fleet r sd :
+  unplaceableb ttl tick fleet r sd = true <-> unplaceable ttl tick fleet r sd.
+Proof.
+  unfold unplaceableb, unplaceable. rewrite orb_true_iff, negb_true_iff, N.eqb_neq, existsb_exists.
+  split; (intros [H | H]; [left; exact H | right]).
+  - destruct H as ([reg cnt] & Hin & Hlt). cbn [fst snd] in Hlt.
+    apply In_nth_error in Hin as (n & Hn). apply nth_error_combine in Hn as [H1 H2].
+    exists (N.of_nat n), reg, cnt. rewrite !get_nat. repeat split; [exact H1 | exact H2 | lia].
+  - destruct H as (i & reg & cnt & H1 & H2 & Hlt). exists (reg, cnt). split; [|cbn [fst snd]; lia].
+    eapply nth_error_In. apply nth_error_combine. split; [exact H1 | exact H2].
+Qed.
+
+Theorem must_refuseb_spec : forall ttl tick fleet shards regs,
+  must_refuseb ttl tick fleet shards regs = true <-> must_refuse ttl tick fleet shards regs.
+Proof.
+  intros ttl tick fleet shards [r|]; unfold must_refuseb, must_refuse; cbn [bad_spec].
+  2:{ split; [intros _; left; exact I | reflexivity]. }
+  rewrite !orb_true_iff, negb_true_iff, N.eqb_neq, existsb_exists. split.
+  - intros [[H | H] | (sd & Hin & Hu)].
+    + left. left. unfold nlen in H. lia.
+    + left. right. intros Hnd. apply has_dup_NoDup in Hnd. congruence.
+    + right. exists r, sd. split; [reflexivity|]. split; [exact Hin|]. apply unplaceableb_spec. exact Hu.
+  - intros [[H | H] | (r' & sd & Er & Hin & Hu)].
+    + left. left. unfold nlen. lia.
+    + left. right. destruct (has_dup [] (rg_region r)) eqn:E; [reflexivity|].
+      exfalso. apply H. apply has_dup_NoDup. exact E.
+    + injection Er as <-. right. exists sd. split; [exact Hin|]. apply unplaceableb_spec. exact Hu.
+Qed.
+
+Lemma block_okb_sound ttl tick fleet r sd qs :
+  block_okb ttl tick fleet r sd qs = true -> shard_block_ok ttl tick fleet r sd qs.
+Proof.
+  unfold block_okb, block_coreb. cbv zeta. intros H. apply andb_true_iff in H as [H Hval].
+  destruct (lookup_hosts fleet (map q_raft qs)) as [hs|] eqn:El; [|discriminate].
+  destruct (lookup_hosts_spec _ _ _ El) as [Hmap Hin].
+  rewrite !andb_true_iff in H. destruct H as ((((H1 & H2) & H3) & H4) & H5).
+  exists hs. split; [exact Hmap|]. split; [apply nl_eqb_eq; exact H1|]. split; [apply nodupb_NoDup; exact H2|].
+  split.
+  { rewrite forallb_forall in H3. rewrite Forall_forall in Hin |- *. intros h Hh.
+    specialize (H3 h Hh). apply andb_true_iff in H3 as [Hl Hs].
+    split; [exact (Hin h Hh)|]. split; [apply is_live_spec; exact Hl|].
+    apply negb_true_iff in Hs. unfold hosts_shard in Hs. apply bool_decide_eq_false in Hs. exact Hs. }
+  split.
+  { unfold quota_okb in H4. apply andb_true_iff in H4 as [Hq Hr]. split.
+    - intros i reg cnt Hi Hc. rewrite forallb_forall in Hq.
+      assert (Hp : In (reg, cnt) (combine (rg_region r) (rg_count r))).
+      { eapply nth_error_In. apply nth_error_combine. split; [exact Hi | exact Hc]. }
+      specialize (Hq _ Hp). cbn [fst snd] in Hq. apply N.eqb_eq in Hq. exact Hq.
+    - rewrite forallb_forall in Hr. apply Forall_forall. intros h Hh. apply memN_In. exact (Hr h Hh). }
+  rewrite forallb_forall in H5, Hval. apply Forall_forall. intros q Hq.
+  specialize (H5 q Hq). specialize (Hval q Hq). unfold req_coreb in H5.
+  rewrite !andb_true_iff in H5.
+  destruct H5 as ((((((((Ht & Hs) & Hc) & Hm) & Hr) & Ha) & Hj) & Hre) & Hap).
+  apply N.eqb_eq in Hs, Hc, Hap. apply nl_eqb_eq in Hm, Hr, Ha. apply negb_true_iff in Hj, Hre.
+  repeat split; try assumption.
+  destruct (q_type q); cbn in Ht; congruence.
+Qed.
+
+(** an observed plan that passes the strict executable test satisfies the conclusion of C08_valid *)
+Theorem blocks_okb_sound : forall ttl tick fleet r shards qs,
+  blocks_okb true ttl tick fleet r shards qs = true ->
+  exists blocks, qs = concat blocks /\ Forall2 (shard_block_ok ttl tick fleet r) shards blocks.
+Proof.
+  intros ttl tick fleet r shards. induction shards as [|sd shards IH]; intros qs H; cbn [blocks_okb] in H.
+  - destruct qs; [|discriminate]. exists []. split; [reflexivity | constructor].
+  - rewrite !andb_true_iff in H. destruct H as ((Hc & Hv) & Hrest). cbn [orb negb] in Hv.
+    destruct (IH _ Hrest) as (blocks & Eb & HF).
+    exists (firstn (length (sd_members sd)) qs :: blocks). split.
+    + cbn [concat]. rewrite <- Eb. symmetry. apply firstn_skipn.
+    + constructor; [|exact HF]. apply block_okb_sound. unfold block_okb. rewrite Hc. exact Hv.
 Qed.
